@@ -682,6 +682,17 @@ def evaluate_ws(ctx, cases, res, with_model=True):
     jobs = []
     nerr = 0
     for case, rec in zip(cases, res):
+        if rec["error"] and rec["error"].startswith("TimeoutError"):
+            # an experiment of the case never ended (e.g. the resubmitted task cannot read its own result files): that is an
+            # observation about the code under test, not a harness failure
+            ctx.count("b_case_timeouts", 1)
+            ctx.monitor_fail("experiment-never-ends-after-repair",
+                             f"a run of the workspace history {[o.get('op') for o in case.get('ops', [])]} did not end within its time limit "
+                             f"(resubmitting after the repair hangs or fails to read the moved result)", {"ws_case": case})
+            continue
+        if rec["error"] == "worker gave up after a stuck case":
+            ctx.count("b_cases_skipped_after_stuck_case", 1)
+            continue
         if rec["error"]:
             nerr += 1
             ctx.count("b_case_errors", rec["error"][:80])
